@@ -38,6 +38,7 @@ import (
 	"go/ast"
 	"go/token"
 	"go/types"
+	"os"
 	"sort"
 	"strings"
 )
@@ -74,6 +75,8 @@ type recogniser struct {
 	byteVar map[types.Object]int
 	intVar  map[types.Object]int
 	unsup   string
+	ctx     *Ctx
+	bind    map[types.Object]ast.Expr // parameter of a predicate helper being evaluated -> the argument at the call
 }
 
 // JSON number DFA over {zero, nonzero digit, dot, minus, plus, exp, other}
@@ -199,6 +202,9 @@ type condOut struct {
 func (rc *recogniser) bytePos(e ast.Expr, st recState) (kind int, varIdx int, ok bool) {
 	e = ast.Unparen(e)
 	if id, isId := e.(*ast.Ident); isId {
+		if arg, bound := rc.bind[rc.info.Uses[id]]; bound {
+			return rc.bytePos(arg, st)
+		}
 		if k, has := rc.byteVar[rc.info.Uses[id]]; has {
 			return 2, k, true
 		}
@@ -285,6 +291,21 @@ func (rc *recogniser) evalCond(e ast.Expr, st recState) []condOut {
 		return []condOut{{tv.Value.String() == "true", st}}
 	}
 	switch t := e.(type) {
+	case *ast.CallExpr:
+		// a private predicate of the package: func p(b byte) bool { return <expr over b> }
+		if f := calleeFunc(rc.info, t); f != nil && rc.ctx != nil && !f.Exported() && rc.ctx.IsRarePkg(f.Pkg()) && len(t.Args) == 1 && len(rc.bind) == 0 {
+			if hfi := funcDeclOf(rc.ctx, f); hfi != nil && hfi.Decl.Recv == nil && hfi.Decl.Type.Params != nil && len(hfi.Decl.Type.Params.List) == 1 && len(hfi.Decl.Type.Params.List[0].Names) == 1 && len(hfi.Decl.Body.List) == 1 {
+				if rs, isRet := hfi.Decl.Body.List[0].(*ast.ReturnStmt); isRet && len(rs.Results) == 1 && hfi.Pkg.TypesInfo == rc.info {
+					param := rc.info.Defs[hfi.Decl.Type.Params.List[0].Names[0]]
+					if _, _, okArg := rc.bytePos(t.Args[0], st); okArg && param != nil {
+						rc.bind = map[types.Object]ast.Expr{param: t.Args[0]}
+						outs := rc.evalCond(rs.Results[0], st)
+						rc.bind = nil
+						return outs
+					}
+				}
+			}
+		}
 	case *ast.UnaryExpr:
 		if t.Op == token.NOT {
 			outs := rc.evalCond(t.X, st)
@@ -563,18 +584,34 @@ func (rc *recogniser) transfer(n ast.Node, it recItem) []recItem {
 	return nil
 }
 
-// c16NumberGrammar runs the analysis on minijson.isNumeric.
+// c16NumberGrammar runs the analysis on minijson.isNumeric; when the function as written leaves
+// the interpreted idiom (a digit predicate in a helper, say) it is tried once more on the
+// normalised view, in which new private helpers are expanded in place.
 func c16NumberGrammar(c *Ctx, r *Report, rule string) {
+	if c16NumberGrammarOn(c, r, rule, c.Overlay == nil && os.Getenv("RARECHECK_NO_NORMALISE") == "") {
+		return
+	}
+	if nc, n, _ := LoadNormalised(c); nc != nil {
+		r.Notes = append(r.Notes, fmt.Sprintf("C16-e/number-grammar: isNumeric decided on the normalised view (%d helper calls expanded in place)", n))
+		c16NumberGrammarOn(nc, r, rule, false)
+		return
+	}
+	c16NumberGrammarOn(c, r, rule, false)
+}
+
+// c16NumberGrammarOn analyses the recogniser of one view. With deferUndecided it reports nothing and
+// returns false when the function is outside the idiom, so that the caller can try another view.
+func c16NumberGrammarOn(c *Ctx, r *Report, rule string, deferUndecided bool) bool {
 	fi := c.MustFunc(r, rule, minijsonPkg, "isNumeric")
 	if fi == nil {
-		return
+		return true
 	}
 	info := fi.Pkg.TypesInfo
 	fd := fi.Decl
-	rc := &recogniser{info: info, byteVar: map[types.Object]int{}, intVar: map[types.Object]int{}}
+	rc := &recogniser{info: info, ctx: c, byteVar: map[types.Object]int{}, intVar: map[types.Object]int{}}
 	if fd.Type.Params == nil || len(fd.Type.Params.List) != 1 || len(fd.Type.Params.List[0].Names) != 1 {
 		r.OK(rule, fi.Name, "recogniser", c.Pos(fd.Pos()), "not decided: the recogniser does not take a single string (outside the interpreted idiom)")
-		return
+		return true
 	}
 	rc.sObj = info.Defs[fd.Type.Params.List[0].Names[0]]
 	// the index variable: the identifier s is indexed with; byte locals; the constants compared
@@ -610,6 +647,21 @@ func c16NumberGrammar(c *Ctx, r *Report, rule string) {
 				if k, ok := constInt(info, t); ok && k >= 0 && k < 256 {
 					cuts[int(k)] = true
 					cuts[int(k)+1] = true
+				}
+			}
+		case *ast.CallExpr:
+			// constants compared inside a private predicate the scan calls split the classes as well
+			if f := calleeFunc(info, t); f != nil && !f.Exported() && c.IsRarePkg(f.Pkg()) {
+				if hfi := funcDeclOf(c, f); hfi != nil && hfi.Decl.Body != nil {
+					ast.Inspect(hfi.Decl.Body, func(y ast.Node) bool {
+						if bl, ok := y.(*ast.BasicLit); ok && (bl.Kind == token.CHAR || bl.Kind == token.INT) {
+							if k, ok := constInt(hfi.Pkg.TypesInfo, bl); ok && k >= 0 && k < 256 {
+								cuts[int(k)] = true
+								cuts[int(k)+1] = true
+							}
+						}
+						return true
+					})
 				}
 			}
 		}
@@ -718,9 +770,12 @@ func c16NumberGrammar(c *Ctx, r *Report, rule string) {
 		rc.fail("state space larger than expected")
 	}
 	if rc.unsup != "" {
+		if deferUndecided {
+			return false
+		}
 		r.OK(rule, fi.Name, "recogniser", c.Pos(fd.Pos()), "not decided: the recogniser uses a construct outside the interpreted idiom ("+rc.unsup+"); no verdict either way")
 		r.Notes = append(r.Notes, "C16-e/number-grammar: isNumeric not decided ("+rc.unsup+")")
-		return
+		return true
 	}
 	sort.Strings(witnesses)
 	witnesses = uniqStrings(witnesses)
@@ -730,4 +785,5 @@ func c16NumberGrammar(c *Ctx, r *Report, rule string) {
 	r.Check(len(witnesses) == 0, rule, fi.Name, "accepted language within the JSON number grammar", c.Pos(fd.Pos()),
 		fmt.Sprintf("typestate: %d abstract states (%d byte classes x JSON-number DFA) explored to a fixpoint; every accepting return is reached at the end of the text in an accepting DFA state", explored, len(rc.classes)),
 		"the numeric recogniser accepts text that is not a JSON number, and WriteInferred copies accepted text into the object unquoted: "+strings.Join(witnesses, "; ")+" - the result is not valid JSON")
+	return true
 }
